@@ -11,7 +11,7 @@ FEATURES = {
     "C02": dict(stamp=0.15, always=0.1, fail=0.1, ifcreate=0.4, default=0.5),
     "C03": dict(stamp=0.8, always=0.25, fail=0.05, ifcreate=0.1, default=0.2),
     "C05": dict(stamp=0.15, always=0.1, fail=0.55, exitfail=0.2, ifcreate=0.1, default=0.3),
-    "C11": dict(stamp=0.2, always=0.1, fail=0.1, ifcreate=0.2, default=0.7),
+    "C11": dict(stamp=0.2, always=0.1, fail=0.1, ifcreate=0.2, default=0.7, symlink=0.3, handedit2=0.1),
     "C14": dict(stamp=0.2, always=0.5, fail=0.05, ifcreate=0.8, default=0.2),
     "C17": dict(stamp=0.4, always=0.1, fail=0.2, ifcreate=0.3, default=0.4),
 }
